@@ -22,41 +22,46 @@ VARIABLES pts, nodeOf, free, next, count,   \* Shard.tla
           lim,                              \* size limit of this history
           l, S, U, fault,
           mem,                              \* 1 = in-memory backend
+          csz,                              \* shared cache size of this history (0 = off)
           saved,                            \* shard state saved by Fork (what-if trials on a copy)
+          vers,                             \* vers[k+1] = point map after k write events of this history
           kf                                \* known-finding signatures matched so far
 
 Sh == INSTANCE Shard
 
-vars == <<pts, nodeOf, free, next, count, lim, l, S, U, fault, mem, saved, kf>>
+vars == <<pts, nodeOf, free, next, count, lim, l, S, U, fault, mem, csz, saved, vers, kf>>
 
 TraceInit ==
   /\ Sh!ShardInit
-  /\ lim = 0 /\ l = 1 /\ S = <<>> /\ U = <<>> /\ fault = FALSE /\ mem = 0 /\ saved = <<>> /\ kf = {}
+  /\ lim = 0 /\ l = 1 /\ S = <<>> /\ U = <<>> /\ fault = FALSE /\ mem = 0 /\ csz = 0 /\ saved = <<>> /\ vers = << <<>> >> /\ kf = {}
 
 E == Trace[l]
 IsEvent(name) == /\ l <= Len(Trace)
                  /\ Trace[l].ev = name
                  /\ l' = l + 1
-Env == UNCHANGED <<lim, S, U, mem, saved>>
+Env == UNCHANGED <<lim, S, U, mem, csz, saved>>
+VersKeep == UNCHANGED vers
+VersPush == vers' = Append(vers, pts')
 AsSet(s) == {s[i] : i \in DOMAIN s}
 
 \* logged projection P = [nodes: Seq(<<id, node>>), free: Seq(node), next, count]
-PN(P) == [i \in {P.nodes[k][1] : k \in DOMAIN P.nodes} |->
-            P.nodes[CHOOSE k \in DOMAIN P.nodes : P.nodes[k][1] = i][2]]
-PNodesFunctional(P) == \A j, k \in DOMAIN P.nodes : j # k => P.nodes[j][1] # P.nodes[k][1]
+RECURSIVE MkFn(_, _)
+MkFn(s, k) == IF k = 0 THEN <<>> ELSE MkFn(s, k - 1) @@ (s[k][1] :> s[k][2])
+PN(P) == MkFn(P.nodes, Len(P.nodes))
+PNodesFunctional(P) == Cardinality({P.nodes[k][1] : k \in DOMAIN P.nodes}) = Len(P.nodes)
 PF(P) == AsSet(P.free)
 
 ---------------------------------------------------------------------------
 TReset ==
   /\ IsEvent("Reset")
   /\ pts' = <<>> /\ nodeOf' = <<>> /\ free' = {} /\ next' = 2 /\ count' = 0
-  /\ S' = E.schema /\ U' = E.pool /\ lim' = E.limit /\ mem' = E.mem
-  /\ fault' = FALSE /\ saved' = <<>> /\ UNCHANGED kf
+  /\ S' = E.schema /\ U' = E.pool /\ lim' = E.limit /\ mem' = E.mem /\ csz' = E.cache
+  /\ fault' = FALSE /\ saved' = <<>> /\ vers' = << <<>> >> /\ UNCHANGED kf
 
 TFault ==
   /\ IsEvent("Fault")
   /\ fault' = TRUE
-  /\ UNCHANGED <<pts, nodeOf, free, next, count, kf>> /\ Env
+  /\ UNCHANGED <<pts, nodeOf, free, next, count, kf>> /\ Env /\ VersKeep
 
 \* Known finding "emptykey" (C01/C02): on the file backend a write batch that
 \* would add the empty string to a string / stringArray index fails as a whole
@@ -88,6 +93,7 @@ TInsert ==
      ELSE /\ (fault \/ ~Sh!InsertValid(E.pts) \/ KFEmptyKey(E.pts))
           /\ Unchanged(E.P)
           /\ Note(~fault /\ Sh!InsertValid(E.pts), "emptykey")
+  /\ VersPush
 
 TUpdate ==
   /\ IsEvent("Update")
@@ -102,6 +108,7 @@ TUpdate ==
      ELSE /\ (fault \/ Sh!UpdOversize(pts, E.pts, lim) \/ KFEmptyKey(E.pts))
           /\ Unchanged(E.P)
           /\ Note(~fault /\ ~Sh!UpdOversize(pts, E.pts, lim), "emptykey")
+  /\ VersPush
 
 TDelete ==
   /\ IsEvent("Delete")
@@ -116,11 +123,12 @@ TDelete ==
      ELSE /\ fault
           /\ Unchanged(E.P)
           /\ UNCHANGED kf
+  /\ VersPush
 
 ---------------------------------------------------------------------------
 (* Observations: state unchanged, logged answer must equal the model's    *)
 
-Obs == UNCHANGED <<pts, nodeOf, free, next, count, fault, kf>> /\ Env
+Obs == UNCHANGED <<pts, nodeOf, free, next, count, fault, kf>> /\ Env /\ VersKeep
 
 TCount == IsEvent("Count") /\ Obs /\ E.n = Cardinality(DOMAIN pts) /\ E.n = count
 
@@ -160,7 +168,7 @@ TVamanaPair ==
          DB(i) == E.b[CHOOSE k \in DOMAIN E.b : E.b[k].id = i].d
      IN  /\ \A i \in A \ B : \E j \in B \ A : DA(i) = DB(j)
          /\ \A j \in B \ A : \E i \in A \ B : DA(i) = DB(j)
-  /\ HitsSound(S, U, pts, E.p, E.vec, E.limit, 4, [k |-> "all"], [k \in DOMAIN E.a |-> [id |-> E.a[k].id, d |-> E.a[k].d, h4 |-> 0 - 4 * E.a[k].d]], 0)
+  /\ HitsSound(S, U, pts, E.p, E.vec, E.limit, 4, [k |-> "all"], [k \in DOMAIN E.a |-> [id |-> E.a[k].id, d |-> E.a[k].d, h4 |-> 0 - 4 * E.a[k].d]], E.tol)
 
 TText ==
   /\ IsEvent("Text") /\ Obs
@@ -191,19 +199,19 @@ TGraph ==
 TFork ==
   /\ IsEvent("Fork")
   /\ saved' = [pts |-> pts, nodeOf |-> nodeOf, free |-> free, next |-> next, count |-> count]
-  /\ UNCHANGED <<pts, nodeOf, free, next, count, fault, kf, lim, S, U, mem>>
+  /\ UNCHANGED <<pts, nodeOf, free, next, count, fault, kf, lim, S, U, mem, csz, vers>>
 TRestore ==
   /\ IsEvent("Restore")
   /\ pts' = saved.pts /\ nodeOf' = saved.nodeOf /\ free' = saved.free /\ next' = saved.next /\ count' = saved.count
   /\ fault' = FALSE
-  /\ UNCHANGED <<saved, kf, lim, S, U, mem>>
+  /\ UNCHANGED <<saved, kf, lim, S, U, mem, csz, vers>>
 
 \* the process was killed while the batch ran (observed after reopening the
 \* file): before the commit nothing of the batch may be visible, right after
 \* the commit all of it must be
 TCrash ==
   /\ IsEvent("Crash")
-  /\ fault' = FALSE /\ Env /\ UNCHANGED kf
+  /\ fault' = FALSE /\ Env /\ UNCHANGED kf /\ VersKeep
   /\ PNodesFunctional(E.P)
   /\ IF E.applied = 0
      THEN Unchanged(E.P)
@@ -219,13 +227,38 @@ TCrash ==
             [] E.kind = "delete" ->
                  Sh!DeleteBatch(AsSet(E.ids), PN(E.P), PF(E.P), E.P.next) /\ count' = E.P.count
 
+\* A search that ran concurrently with the writer stream (C09).  It began when
+\* E.a write batches had returned and ended when E.b had been started, so its
+\* snapshot is one of the versions a..b: every returned point was live in one
+\* of those committed versions, with exactly the document of that version.
+TCSearch ==
+  /\ IsEvent("CSearch") /\ Obs
+  /\ E.a + 1 >= 1 /\ E.b + 1 <= Len(vers)
+  /\ \A k \in DOMAIN E.docs :
+        \E v \in (E.a + 1)..(E.b + 1) :
+           /\ E.docs[k].id \in DOMAIN vers[v]
+           /\ Visible(vers[v][E.docs[k].id]) = E.docs[k].f
+
+\* Known finding C09-b: with a shared cache (size # 0) a ranking search whose
+\* snapshot is older than a batch committed while it ran may attach the shared
+\* index cache already updated by that batch; it then meets a node that does not
+\* exist in its snapshot and fails spuriously.  Signature: an error of a
+\* concurrent RANKING search that overlapped a commit (a < b) on a history with
+\* the shared cache on.  Any other search error is not excused.
+TErrKnown ==
+  /\ IsEvent("Err")
+  /\ "C09-b" \in KnownFindings
+  /\ E.what = "ConcurrentSearch/rank" /\ E.a < E.b /\ csz # 0 /\ mem = 0
+  /\ kf' = kf \cup {"C09-b"}
+  /\ UNCHANGED <<pts, nodeOf, free, next, count, fault>> /\ Env /\ VersKeep
+
 \* environment steps with no effect on the abstract state (reopen, evict,
 \* switch to a cold copy): the model says nothing may change
 TQuiet == IsEvent("Quiet") /\ Obs
 
 TraceNext ==
   \/ TReset \/ TFault \/ TInsert \/ TUpdate \/ TDelete \/ TFork \/ TRestore \/ TCrash
-  \/ TCount \/ TGet \/ TFilter \/ TFlat \/ TVamana \/ TVamanaPair \/ TText \/ TGraph \/ TQuiet
+  \/ TCount \/ TGet \/ TFilter \/ TFlat \/ TVamana \/ TVamanaPair \/ TCSearch \/ TErrKnown \/ TText \/ TGraph \/ TQuiet
 
 TraceSpec == TraceInit /\ [][TraceNext]_vars
 
@@ -233,6 +266,8 @@ TraceSpec == TraceInit /\ [][TraceNext]_vars
 WF == Sh!ShardWF
 
 \* every line consumed; the findings matched are printed for the orchestrator
+\* states of a trace are told apart by the line counter alone (cheap fingerprints)
+TraceView == l
 TraceAccepted ==
   /\ TLCGet("stats").diameter - 1 = Len(Trace)
 
